@@ -13,6 +13,7 @@ pub struct Reg {
     pub z_drops: i64,
     pub z_clones: i64,
     pub nd_clones: i64,
+    pub conv_fault: bool,
     pub clone_fault: Option<u32>,
     pub drop_fault: Option<u32>,
     pub closure_fault: Option<u32>,
@@ -36,6 +37,11 @@ pub fn born() -> u64 {
         r.state.insert(id, 1);
         id
     })
+}
+
+/// A user conversion `impl From<Conv<Components>> for Components` asks whether it has to panic.
+pub fn take_conv_fault() -> bool {
+    with(|r| std::mem::replace(&mut r.conv_fault, false))
 }
 
 /// Called first thing in `Clone::clone` of the instrumented types: runs the pending one-shot hook.
